@@ -25,6 +25,7 @@ import (
 	"strconv"
 	"strings"
 
+	"github.com/openGemini/openGemini/lib/util/lifted/vm/protoparser/influx"
 	"verifharness/internal/crashfs"
 	"verifharness/internal/gen"
 	"verifharness/internal/tsdrv"
@@ -68,6 +69,7 @@ type History struct {
 	NWal   int     `json:"nwal"`
 	NSer   int     `json:"nser"`
 	Ops    []Op    `json:"ops"`
+	Pre    int     `json:"pre"` // leading warm-up ops (write+flush rounds that age the shard); no crash images there
 	Images []Image `json:"images"`
 	Crash  string  `json:"crash,omitempty"`
 	Flags  Flags   `json:"flags"`
@@ -83,14 +85,14 @@ type Flags struct {
 
 // ---- generation ----
 
-func genHistory(r *gen.Rand) (nser, nwal int, ops []Op) {
-	nser = r.Range(1, 3)
+func genHistory(r *gen.Rand) (nser, nwal, pre int, ops []Op) {
+	nser = r.Range(1, 5)
 	nwal = gen.Pick(r, []int{1, 2, 3, 16, 16})
 	now := 2
 	val := int64(1)
 	n := r.Range(4, 26)
-	mkRow := func() tsdrv.Row {
-		s := r.Intn(nser)
+	active := 1 // series introduced so far: new series keep appearing during the history, often right before a flush
+	mkRowS := func(s int) tsdrv.Row {
 		var t int
 		switch r.Intn(6) {
 		case 0, 1:
@@ -118,6 +120,48 @@ func genHistory(r *gen.Rand) (nser, nwal int, ops []Op) {
 		val++
 		return row
 	}
+	mkRow := func() tsdrv.Row {
+		if active < nser && r.Chance(1, 8) {
+			active++
+			return mkRowS(active - 1)
+		}
+		return mkRowS(r.Intn(active))
+	}
+	newSeries := func() { // a write that creates a brand-new series (its index entry is not durable yet)
+		if active < nser && r.Chance(2, 3) {
+			active++
+			ops = append(ops, Op{K: "W", Rows: []tsdrv.Row{mkRowS(active - 1)}})
+		}
+	}
+	// a minority of histories start on an aged shard: k cheap write+flush rounds first, so that the WAL file numbers
+	// reach / cross a power of ten (9.wal -> 10.wal, 99.wal -> 100.wal); one partition, so every round advances the number
+	if r.Chance(1, 5) {
+		nwal = gen.Pick(r, []int{1, 1, 1, 2})
+		k := gen.Pick(r, []int{8, 8, 9, 10, 11})
+		if r.Chance(1, 4) {
+			k = gen.Pick(r, []int{98, 98, 99, 100})
+		}
+		if nwal == 2 {
+			k *= 2
+		}
+		for i := 0; i < k; i++ {
+			ops = append(ops, Op{K: "W", Rows: []tsdrv.Row{{S: 0, T: i % NT, F: []tsdrv.FV{{F: 0, V: val}}}}}, Op{K: "F"})
+			val++
+		}
+		pre = len(ops)
+		n += pre
+		// an overwrite that spans the log switch of a paused flush: older value in file k+1, newer in file k+2
+		s, t := 0, r.Intn(NT)
+		ops = append(ops, Op{K: "W", Rows: []tsdrv.Row{{S: s, T: t, F: []tsdrv.FV{{F: 0, V: val}}}}})
+		val++
+		ops = append(ops, Op{K: "FB"})
+		for i := 0; i < nwal; i++ {
+			ops = append(ops, Op{K: "W", Rows: []tsdrv.Row{{S: s, T: t, F: []tsdrv.FV{{F: 0, V: val}}}}})
+			val++
+		}
+		newSeries()
+		ops = append(ops, Op{K: "FE"})
+	}
 	for len(ops) < n {
 		switch k := r.Intn(10); {
 		case k < 7:
@@ -137,11 +181,12 @@ func genHistory(r *gen.Rand) (nser, nwal int, ops []Op) {
 			}
 			ops = append(ops, Op{K: "W", Rows: rows})
 		case k < 9:
+			newSeries()
 			if r.Chance(1, 2) {
 				// a flush that is paused after the log switch / memtable swap while more writes are acknowledged:
 				// two WAL epochs are live until the flush finishes
 				ops = append(ops, Op{K: "FB"})
-				s, t := r.Intn(nser), r.Range(max(0, now-1), now)
+				s, t := r.Intn(active), r.Range(max(0, now-1), now)
 				for i := 0; i < r.Range(1, 3); i++ {
 					if r.Chance(1, 2) {
 						ops = append(ops, Op{K: "W", Rows: []tsdrv.Row{{S: s, T: t, F: []tsdrv.FV{{F: 0, V: val}}}}})
@@ -164,7 +209,7 @@ func genHistory(r *gen.Rand) (nser, nwal int, ops []Op) {
 				ops = append(ops, Op{K: "W", Rows: []tsdrv.Row{mkRow()}})
 			}
 			ops = append(ops, Op{K: "F"})
-			s, t := r.Intn(nser), r.Intn(NT)
+			s, t := r.Intn(active), r.Intn(NT)
 			for i := 0; i < r.Range(2, 3); i++ {
 				ops = append(ops, Op{K: "W", Rows: []tsdrv.Row{{S: s, T: t, F: []tsdrv.FV{{F: 0, V: val}}}}})
 				val++
@@ -184,6 +229,62 @@ func witness() (int, int, []Op) {
 	ops = append(ops, Op{K: "W", Rows: []tsdrv.Row{{S: 0, T: 3, F: []tsdrv.FV{{F: 0, V: 111}}}}})
 	ops = append(ops, Op{K: "W", Rows: []tsdrv.Row{{S: 0, T: 3, F: []tsdrv.FV{{F: 0, V: 222}}}}})
 	return 1, 16, ops
+}
+
+// write one batch through shard.WriteRows WITHOUT flushing the series index afterwards (tsdrv.Write does flush it):
+// a series created by the batch is durable only through its WAL record until the engine itself flushes the index
+// (memtable flush, background timer).
+func writeRows(sh *tsdrv.Shard, rows []tsdrv.Row) error {
+	irs := make([]influx.Row, len(rows))
+	for i, r := range rows {
+		ir := &irs[i]
+		ir.Name = tsdrv.Mst
+		ir.Timestamp = tsdrv.TimeOf(r.T)
+		ir.Tags = influx.PointTags{{Key: "host", Value: "h" + strconv.Itoa(r.S)}, {Key: "zone", Value: "z" + strconv.Itoa(r.S%2)}}
+		for _, fv := range r.F {
+			f := influx.Field{Key: tsdrv.FieldNames[fv.F], Type: tsdrv.FieldTypes[fv.F]}
+			switch fv.F {
+			case 0:
+				f.NumValue = float64(fv.V)
+			case 1:
+				f.NumValue = tsdrv.FloatOf(fv.V)
+			case 2:
+				f.NumValue = float64(fv.V & 1)
+			case 3:
+				f.StrValue = tsdrv.StrPool[int(fv.V)%len(tsdrv.StrPool)]
+			}
+			ir.Fields = append(ir.Fields, f)
+		}
+	}
+	return sh.V.WriteRows(irs)
+}
+
+// fixed history: a shard aged by 8 write+flush rounds (WAL file numbers reach 9), then an overwrite spanning the log
+// switch of a paused flush: the older value sits in 9.wal, the newer one in 10.wal
+func aged8() (int, int, int, []Op) {
+	var ops []Op
+	for i := 0; i < 8; i++ {
+		ops = append(ops, Op{K: "W", Rows: []tsdrv.Row{{S: 0, T: i, F: []tsdrv.FV{{F: 0, V: int64(500 + i)}}}}}, Op{K: "F"})
+	}
+	pre := len(ops)
+	ops = append(ops, Op{K: "W", Rows: []tsdrv.Row{{S: 0, T: 4, F: []tsdrv.FV{{F: 0, V: 1}}}}})
+	ops = append(ops, Op{K: "FB"})
+	ops = append(ops, Op{K: "W", Rows: []tsdrv.Row{{S: 0, T: 4, F: []tsdrv.FV{{F: 0, V: 2}}}}})
+	ops = append(ops, Op{K: "FE"})
+	return 1, 1, pre, ops
+}
+
+// fixed history: series that are created right before a flush (their index entry is durable only through the index
+// flush of that memtable flush) - crash points after the log removal must still find them
+func newSeriesBeforeFlush() (int, int, int, []Op) {
+	ops := []Op{
+		{K: "W", Rows: []tsdrv.Row{{S: 0, T: 1, F: []tsdrv.FV{{F: 0, V: 10}}}}}, {K: "F"},
+		{K: "W", Rows: []tsdrv.Row{{S: 1, T: 2, F: []tsdrv.FV{{F: 0, V: 11}, {F: 1, V: 11}}}}}, {K: "F"},
+		{K: "W", Rows: []tsdrv.Row{{S: 2, T: 3, F: []tsdrv.FV{{F: 0, V: 12}}}, {S: 0, T: 3, F: []tsdrv.FV{{F: 0, V: 13}}}}},
+		{K: "FB"}, {K: "W", Rows: []tsdrv.Row{{S: 3, T: 4, F: []tsdrv.FV{{F: 0, V: 14}}}}}, {K: "FE"},
+		{K: "W", Rows: []tsdrv.Row{{S: 1, T: 5, F: []tsdrv.FV{{F: 0, V: 15}}}}},
+	}
+	return 4, 2, 0, ops
 }
 
 // ---- run ----
@@ -240,8 +341,9 @@ func partsOf(imgDir string, nwal int, wal map[string][]int, walEpoch map[string]
 	return
 }
 
-func runHistory(idx int, work string, nser, nwal int, ops []Op, r *gen.Rand, rec *crashfs.Recorder, quick bool) (h History) {
-	h = History{Case: idx, NWal: nwal, NSer: nser, Ops: ops, Images: []Image{}}
+func runHistory(idx int, work string, nser, nwal, pre int, ops []Op, r *gen.Rand, rec *crashfs.Recorder, quick bool) (h History) {
+	dense := idx > 100000 // the fixed histories: every first-level crash point, sampled second-level ones
+	h = History{Case: idx, NWal: nwal, NSer: nser, Ops: ops, Pre: pre, Images: []Image{}}
 	base := filepath.Join(work, "c01", strconv.Itoa(idx))
 	dir := filepath.Join(base, "live")
 	_ = os.RemoveAll(base)
@@ -276,6 +378,9 @@ func runHistory(idx int, work string, nser, nwal int, ops []Op, r *gen.Rand, rec
 	var pend []pending
 	nimg := 0
 	capImg := 14
+	if dense {
+		capImg = 70
+	}
 	if !quick {
 		capImg = 400
 	}
@@ -287,7 +392,7 @@ func runHistory(idx int, work string, nser, nwal int, ops []Op, r *gen.Rand, rec
 	rel := func(p string) string { x, _ := filepath.Rel(dir, p); return x }
 	isWal := func(p string) bool { return strings.HasPrefix(rel(p), "wal"+string(os.PathSeparator)) }
 	take := func(at string, inflight, torn int, ev *crashfs.Event, force bool) {
-		if !force && len(pend) >= capImg {
+		if cur < pre || (!force && len(pend) >= capImg) {
 			return
 		}
 		d := filepath.Join(base, fmt.Sprintf("img%d", nimg))
@@ -304,7 +409,7 @@ func runHistory(idx int, work string, nser, nwal int, ops []Op, r *gen.Rand, rec
 			img: Image{At: at, Op: cur, Acked: acked, Inflight: inflight, Torn: torn, Sub: -1}})
 	}
 	// sampling of crash points in the quick tier (every eligible point in thorough)
-	ch := func(num, den int) bool { return !quick || r.Chance(num, den) }
+	ch := func(num, den int) bool { return !quick || dense || r.Chance(num, den) }
 	isIndex := func(p string) bool { return strings.Contains(rel(p), "index"+string(os.PathSeparator)) }
 	walDone := false // the WAL record of the write in flight is completely on disk
 	infl := func() int {
@@ -406,7 +511,7 @@ func runHistory(idx int, work string, nser, nwal int, ops []Op, r *gen.Rand, rec
 				}
 			}
 			inWrite = true
-			err := sh.Write(op.Rows)
+			err := writeRows(sh, op.Rows)
 			inWrite = false
 			if err != nil {
 				rec.Stop()
@@ -414,9 +519,9 @@ func runHistory(idx int, work string, nser, nwal int, ops []Op, r *gen.Rand, rec
 				return
 			}
 			acked = i + 1
-			if ch(1, 3) || i == len(ops)-1 {
+			if ch(1, 3) || i == len(ops)-1 || (paused && i >= pre) {
 				cur = i + 1
-				rec.Locked(func() { take("after acknowledgement of op "+strconv.Itoa(i), -1, -1, nil, i == len(ops)-1) })
+				rec.Locked(func() { take("after acknowledgement of op "+strconv.Itoa(i), -1, -1, nil, i == len(ops)-1 || paused) })
 			}
 		case "FB":
 			if sh.V.BeginPausedFlush() {
@@ -625,21 +730,25 @@ func main() {
 			fmt.Fprintln(os.Stderr, err)
 			os.Exit(2)
 		}
-		_ = enc.Encode(runHistory(h.Case, work, h.NSer, h.NWal, h.Ops, gen.FromEnv(1001), rec, false))
+		_ = enc.Encode(runHistory(h.Case, work, h.NSer, h.NWal, h.Pre, h.Ops, gen.FromEnv(1001), rec, false))
 		fmt.Fprintln(os.Stderr, "c01 done")
 		return
 	}
 	// the witness first
 	ns, nw, ops := witness()
-	_ = enc.Encode(runHistory(100000, work, ns, nw, ops, gen.FromEnv(1001), rec, quick))
+	_ = enc.Encode(runHistory(100000, work, ns, nw, 0, ops, gen.FromEnv(1001), rec, quick))
+	ns, nw, pre, ops := aged8()
+	_ = enc.Encode(runHistory(100001, work, ns, nw, pre, ops, gen.FromEnv(1002), rec, quick))
+	ns, nw, pre, ops = newSeriesBeforeFlush()
+	_ = enc.Encode(runHistory(100002, work, ns, nw, pre, ops, gen.FromEnv(1003), rec, quick))
 	master := gen.FromEnv(1)
 	for i := 0; i < n; i++ {
 		r := master.Fork()
-		nser, nwal, ops := genHistory(r)
+		nser, nwal, pre, ops := genHistory(r)
 		if only := os.Getenv("VERIF_ONLY"); only != "" && only != strconv.Itoa(i) {
 			continue
 		}
-		_ = enc.Encode(runHistory(i, work, nser, nwal, ops, r.Fork(), rec, quick))
+		_ = enc.Encode(runHistory(i, work, nser, nwal, pre, ops, r.Fork(), rec, quick))
 	}
 	fmt.Fprintln(os.Stderr, "c01 done")
 }
